@@ -106,10 +106,34 @@ package tls
 //@   ensures kept: ret == nil ==> c.config == cfg && cfg.MinVersion == old(cfg.MinVersion) && cfg.MaxVersion == old(cfg.MaxVersion)
 //@   ensures reject: !old(cfgAccepts(cfg, true, peer)) ==> ret != nil
 //@   ensures complete: old(cfgAccepts(cfg, true, peer)) ==> ret == nil
-//@   note GENERATOR GAP: the backing array of the package-level table is not known to be allocated at entry, so the freshly allocated []uint16{peerVersion} may alias it in the model; the next (listed) assumption restates requires `table` at the call. It is true in every execution: a fresh array is never the array of a variable that existed at entry.
-//@   at before call mutualVersion#0: assume tableintact: versTableOK()
+//@   ensures hello_kept: ret == nil ==> serverHello.random == old(serverHello.random) && unchanged(serverHello.random) && serverHello.vers == old(serverHello.vers) && serverHello.supportedVersion == old(serverHello.supportedVersion)
 //@   at before call mutualVersion#0: assert single: arg0 == cfg && arg1 && len(arg2) == 1 && arg2[0] == peer
 //@   at before call sendAlert#0: assert alert: arg0 == c && arg1 == alertProtocolVersion
+
+// ---------------------------------------------------------------------------------------------
+// C13: downgrade protection (RFC 8446, 4.1.3). canary(r) is what the code computes: the last 8 bytes of the
+// 32-byte ServerHello.random equal "DOWNGRD\x01" or "DOWNGRD\x00".
+//@ spec canary12(r) = string(r[24:32]) == downgradeCanaryTLS12
+//@ spec canary11(r) = string(r[24:32]) == downgradeCanaryTLS11
+
+// (*Conn).clientHandshake (handshake_client.go:270) and (*UConn).clientHandshake (u_handshake_client.go:394)
+// have NO contract. The check itself is straight-line code after pickTLSVersion:
+//     maxVers := c.config.maxSupportedVersion(roleClient)          (verif_contracts_preset.go)
+//     if maxVers == VersionTLS13 && c.vers <= VersionTLS12 && (canary12 || canary11) ||
+//        maxVers == VersionTLS12 && c.vers <= VersionTLS11 && canary11 { illegal_parameter; return error }
+// and the anchor that states the property is
+//     at before call handshake#1: assert nodowngrade:
+//         callres(maxSupportedVersion, 0) == VersionTLS13 ==> !canary12(serverHello.random) && !canary11(serverHello.random)
+// The generator accepts both functions (119 obligations for the upstream one), but everything before the
+// branch is a chain of calls without contracts (makeClientHello, loadSession, computeAndUpdateOuterECHExtension,
+// writeHandshakeRecord, readHandshake, ...) that havoc the heap: 17 obligations fail (c.config != nil,
+// ech.config != nil, session != nil when hello.earlyData, len(serverHello.random) >= 24, the version table,
+// a typed-nil *serverHelloMsg, ...), and each would need an `assume` anchor about one of those callees. The
+// branch cannot be isolated with assert-anchors alone, so no contract is kept. pickTLSVersion's clause
+// hello_kept (the ServerHello is untouched on success) is what such a contract would use.
+// Note that "offered TLS 1.3" is decided from Config (maxSupportedVersion), not from the supported_versions
+// list that went on the wire; for a spec whose list contains 1.3 but whose explicit TLSVersMax is 1.2 the
+// TLS 1.2 sentinel is not checked (same root cause as DEFECT_C13_advertised: SetTLSVers does not cross-check).
 
 // ---------------------------------------------------------------------------------------------
 // C13: (*UConn).SetTLSVers fixes the range of versions the client will accept (Config.MinVersion/MaxVersion,
@@ -125,8 +149,12 @@ package tls
 //@ spec onlySVE(exts, n, j) = isSVE(exts[j]) && forall i in 0..n: i != j ==> !isSVE(exts[i])
 //@ spec twoSVE(exts, n) = exists i in 0..n: exists j in i+1..n: isSVE(exts[i]) && isSVE(exts[j])
 //@ spec inr(v) = VersionTLS10 <= v && v <= VersionTLS13
-//@ spec versAdvertised(cfg, exts) = (forall i in 0..len(exts): isSVE(exts[i]) ==> forall v in VersionTLS10..VersionTLS13+1: cfgAccepts(cfg, true, v) ==> attained(sveV(exts[i]), len(sveV(exts[i])), v)) && (noSVE(exts, len(exts)) ==> forall v in VersionTLS10..VersionTLS13+1: cfgAccepts(cfg, true, v) ==> v <= VersionTLS12)
-//@ spec versConsistent(lo, hi, exts) = (forall i in 0..len(exts): isSVE(exts[i]) ==> forall v in VersionTLS10..VersionTLS13+1: lo <= v && v <= hi ==> attained(sveV(exts[i]), len(sveV(exts[i])), v)) && (noSVE(exts, len(exts)) ==> hi <= VersionTLS12)
+// (the four protocol versions are spelled out instead of quantified: a bounded integer quantifier over v has no usable trigger)
+//@ spec accAdv(cfg, V, v) = cfgAccepts(cfg, true, v) ==> attained(V, len(V), v)
+//@ spec accLegacy(cfg, v) = cfgAccepts(cfg, true, v) ==> v <= VersionTLS12
+//@ spec versAdvertised(cfg, exts) = (forall i in 0..len(exts): isSVE(exts[i]) ==> accAdv(cfg, sveV(exts[i]), VersionTLS10) && accAdv(cfg, sveV(exts[i]), VersionTLS11) && accAdv(cfg, sveV(exts[i]), VersionTLS12) && accAdv(cfg, sveV(exts[i]), VersionTLS13)) && (noSVE(exts, len(exts)) ==> accLegacy(cfg, VersionTLS10) && accLegacy(cfg, VersionTLS11) && accLegacy(cfg, VersionTLS12) && accLegacy(cfg, VersionTLS13))
+//@ spec rngAdv(lo, hi, V, v) = lo <= v && v <= hi ==> attained(V, len(V), v)
+//@ spec versConsistent(lo, hi, exts) = (forall i in 0..len(exts): isSVE(exts[i]) ==> rngAdv(lo, hi, sveV(exts[i]), VersionTLS10) && rngAdv(lo, hi, sveV(exts[i]), VersionTLS11) && rngAdv(lo, hi, sveV(exts[i]), VersionTLS12) && rngAdv(lo, hi, sveV(exts[i]), VersionTLS13)) && (noSVE(exts, len(exts)) ==> hi <= VersionTLS12)
 
 //@ func (*UConn).SetTLSVers
 //@   property C13
@@ -151,7 +179,7 @@ package tls
 //@   ensures consistent: explicit && ret == nil && !ech && versConsistent(min0, max0, exts) ==> versAdvertised(cfg, exts)
 //@   ensures derived_contiguous: !explicit && ret == nil && !ech && (forall k in 0..n: isSVE(exts[k]) ==> nz(sveV(exts[k]))) && versConsistent(cfg.MinVersion, cfg.MaxVersion, exts) ==> versAdvertised(cfg, exts)
 //@   note the next two clauses are the property (every spec). SetTLSVers accepts specs whose range is not covered by their supported_versions list: DEFECT_C13_ff102shape is the instance "the only extension is supported_versions{1.3, 1.2}" (HelloFirefox_102 declares TLSVersMin 1.0 with that list), DEFECT_C13_advertised the general statement (quantified: times out instead of sat)
-//@   ensures DEFECT_C13_ff102shape: ret == nil && !ech && n == 1 && isSVE(exts[0]) && len(sveV(exts[0])) == 2 && sveV(exts[0])[0] == VersionTLS13 && sveV(exts[0])[1] == VersionTLS12 ==> cfg.MinVersion >= VersionTLS12
+//@   ensures DEFECT_C13_ff102shape: explicit && ret == nil && !ech && n == 1 && isSVE(exts[0]) && len(sveV(exts[0])) == 2 && sveV(exts[0])[0] == VersionTLS13 && sveV(exts[0])[1] == VersionTLS12 ==> cfg.MinVersion >= VersionTLS12
 //@   ensures DEFECT_C13_advertised: ret == nil ==> versAdvertised(cfg, exts)
 //@   loop 0 invariant -1 <= $rangeindex && $rangeindex < n
 //@   loop 0 invariant 0 <= supportedVersionsExtensionsPresent && supportedVersionsExtensionsPresent <= $k
@@ -160,3 +188,115 @@ package tls
 //@   loop 0 invariant supportedVersionsExtensionsPresent >= 2 <==> twoSVE(exts, $k)
 //@   loop 0 invariant supportedVersionsExtensionsPresent >= 1 ==> minTLSVers != 0 || maxTLSVers != 0
 //@   loop 0 invariant supportedVersionsExtensionsPresent == 1 ==> forall k in 0..$k: isSVE(exts[k]) && nz(sveV(exts[k])) ==> minTLSVers != 0 && maxTLSVers != 0 && within(sveV(exts[k]), len(sveV(exts[k])), minTLSVers, maxTLSVers) && attained(sveV(exts[k]), len(sveV(exts[k])), minTLSVers) && attained(sveV(exts[k]), len(sveV(exts[k])), maxTLSVers)
+
+// ---------------------------------------------------------------------------------------------
+// C13: the parrot table. utlsIdToSpec (u_parrots.go:33, a 2660-line switch of struct literals holding slices
+// of interface values) has NO contract: with a one-clause contract the generator did not emit a single
+// obligation within 15 min wall clock (1800 s CPU, 5.7 GB resident) and was stopped. What the contract
+// would say: for every predefined id, versConsistent(ret0.TLSVersMin, ret0.TLSVersMax, ret0.Extensions)
+// when the range is explicit, and a gap-free non-GREASE list when it is derived (0, 0). Checked instead by
+// enumeration on the real code (overlay test, 39 ids): only HelloFirefox_102 violates it
+// (TLSVersMin 1.0, TLSVersMax 1.3, supported_versions {1.3, 1.2}).
+
+// ---------------------------------------------------------------------------------------------
+// C14: server certificate verification, (*Conn).verifyServerCertificate (handshake_client.go).
+// crypto/x509 is abstract (/verif/contracts/trusted/vers.vc): the contract proves WHAT is verified (leaf,
+// roots, time, name, intermediates) and that success is only reached through a successful Verify.
+
+// The certificate cache (cache.go: sync.Map, atomics, runtime.SetFinalizer) is not verified. Assumed: it
+// returns a parsed certificate (x509.ParseCertificate), and x509 represents an RSA key as a non-nil
+// *rsa.PublicKey with a non-nil modulus (crypto/x509 parsePublicKey); the cache is invisible to callers.
+//@ trusted func (*certCache).newCert
+//@   modifies nothing
+//@   ensures ret1 == nil ==> ret0 != nil && ret0.cert != nil
+//@   ensures ret1 == nil && ret0.cert.PublicKeyAlgorithm == x509.RSA ==> istype(ret0.cert.PublicKey, *rsa.PublicKey) && ret0.cert.PublicKey.(*rsa.PublicKey) != nil && ret0.cert.PublicKey.(*rsa.PublicKey).N != nil
+//@   ensures ret1 != nil ==> ret0 == nil
+
+//@ func checkKeySize
+//@   property C14
+//@   pure
+//@   ensures ret0 == defaultMaxRSAKeySize && (ret1 <==> n <= defaultMaxRSAKeySize)
+
+// connectionStateLocked (upstream conn.go) only reads the connection and builds a ConnectionState value; it is
+// not verified (atomic.Bool.Load and a closure): assumed to write nothing.
+//@ trusted func (*Conn).connectionStateLocked
+//@   requires c != nil && c.config != nil
+//@   modifies nothing
+
+// fipsAllowedChains (upstream common.go): uTLS' internal/fips140tls.Required() is the constant false, so the
+// chains are passed through unchanged and the FIPS filter below the first return is dead code.
+//@ func fipsAllowedChains
+//@   property C14
+//@   note cover:loop0, cover:return1, cover:return2 are unsat on purpose: the FIPS branch is dead code (fips140tls.Required() returns the constant false)
+//@   modifies nothing
+//@   ensures passthrough: ret0 == chains && ret1 == nil
+//@   loop 0 invariant -1 <= $rangeindex && $rangeindex < len(chains)
+
+// echRej: the client offered ECH and the server did not accept it (handshake_client.go:1142).
+// Call numbering (block order of `govc ssa`): Verify#0 / time#0 / NewCertPool#0 / AddCert#0 / fipsAllowedChains#0
+// belong to the ECH-rejected branch, the #1 calls to the ordinary branch.
+// Property clauses:
+//   verified / verified_ech: success without InsecureSkipVerify (resp. after an ECH rejection without a custom
+//     EncryptedClientHelloRejectionVerify) passes through fipsAllowedChains#1 (#0), which is reached only
+//     when Verify returned a nil error (anchors ok1 / ok0: `err` is Verify's error there);
+//   skip: with InsecureSkipVerify (and no ECH rejection) x509 verification is not performed at all;
+//   leaf*, roots*, time*, skiptime*, name_default*, name_override*, name_star*, inter*, usage*: what Verify is given;
+//     InsecureSkipTimeVerify changes CurrentTime only (to the leaf's NotAfter), "*" leaves DNSName empty
+//     (x509 then performs no name check), otherwise DNSName is InsecureServerNameToVerify if set, else ServerName;
+//   DEFECT_C14_ech_public_name: after an ECH rejection the chain must be verified against the ECH public name,
+//     which is c.serverName (the outer ClientHello's server_name; upstream crypto/tls passes DNSName: c.serverName).
+//     The code verifies against Config.ServerName / InsecureServerNameToVerify instead (the upstream line is commented out).
+//@ func (*Conn).verifyServerCertificate
+//@   property C14
+//@   let cfg = c.config
+//@   let echRej = !isnil(c.config.EncryptedClientHelloConfigList) && !c.echAccepted
+//@   let skip = c.config.InsecureSkipVerify
+//@   let skiptime = c.config.InsecureSkipTimeVerify
+//@   let ovr = c.config.InsecureServerNameToVerify
+//@   let sni = c.config.ServerName
+//@   let roots = c.config.RootCAs
+//@   let pubname = c.serverName
+//@   let norv = c.config.EncryptedClientHelloRejectionVerify == nil
+//@   requires c != nil && c.config != nil
+//@   requires nonempty: len(certificates) > 0
+//@   assume-pure EncryptedClientHelloRejectionVerify VerifyPeerCertificate VerifyConnection
+//@   note assume-pure (listed assumption): the three user callbacks of Config are calls through function values; they are assumed not to write memory visible to this function (they receive copies: a ConnectionState by value, the raw certificates and c.verifiedChains). Without it the generator havocs the whole heap at these calls, including the unexported c.config and the local certs slice, which no callback outside the package can reach. The clauses verified/verified_ech/skip/once and every anchor up to Verify are independent of it (the callbacks run after Verify, or instead of it in the ECH branch)
+//@   note nonempty: both callers reject an empty certificate list first (handshake_client.go doFullHandshake, handshake_client_tls13.go readServerCertificate); without it certs[1:] panics
+//@   ensures verified: ret == nil && !echRej && !skip ==> called(Verify, 1) && called(fipsAllowedChains, 1)
+//@   ensures verified_ech: ret == nil && echRej && norv ==> called(Verify, 0) && called(fipsAllowedChains, 0)
+//@   ensures skip: !echRej && skip ==> !called(Verify, 0) && !called(Verify, 1)
+//@   ensures once: !(called(Verify, 0) && called(Verify, 1))
+//@   at before call fipsAllowedChains#1: assert ok1: err == nil && arg0 == chains
+//@   at before call fipsAllowedChains#0: assert ok0: err == nil && arg0 == chains
+//@   at before call Verify#1: assert when1: !echRej && !skip
+//@   at before call Verify#1: assert leaf1: arg0 == certs[0] && len(certs) == len(certificates)
+//@   at before call Verify#1: assert roots1: arg1.Roots == roots
+//@   at before call Verify#1: assert time1: !skiptime ==> arg1.CurrentTime == callres(time, 1)
+//@   at before call Verify#1: assert skiptime1: skiptime ==> arg1.CurrentTime == certs[0].NotAfter
+//@   at before call Verify#1: assert name_default1: len(ovr) == 0 ==> arg1.DNSName == sni
+//@   at before call Verify#1: assert name_override1: len(ovr) != 0 && ovr != "*" ==> arg1.DNSName == ovr
+//@   at before call Verify#1: assert name_star1: ovr == "*" ==> arg1.DNSName == ""
+//@   at before call Verify#1: assert inter1: arg1.Intermediates == callres(NewCertPool, 1)
+//@   at before call Verify#1: assert usage1: isnil(arg1.KeyUsages) && arg1.MaxConstraintComparisions == 0 && isnil(arg1.CertificatePolicies)
+//@   at before call AddCert#1: assert chain1: arg0 == callres(NewCertPool, 1) && arg1 == certs[$k + 1]
+//@   at before call time#1: assert clock1: arg0 == cfg
+//@   at before call Verify#0: assert when0: echRej && norv
+//@   at before call Verify#0: assert leaf0: arg0 == certs[0] && len(certs) == len(certificates)
+//@   at before call Verify#0: assert roots0: arg1.Roots == roots
+//@   at before call Verify#0: assert time0: !skiptime ==> arg1.CurrentTime == callres(time, 0)
+//@   at before call Verify#0: assert skiptime0: skiptime ==> arg1.CurrentTime == certs[0].NotAfter
+//@   at before call Verify#0: assert inter0: arg1.Intermediates == callres(NewCertPool, 0)
+//@   at before call Verify#0: assert usage0: isnil(arg1.KeyUsages) && arg1.MaxConstraintComparisions == 0 && isnil(arg1.CertificatePolicies)
+//@   at before call AddCert#0: assert chain0: arg0 == callres(NewCertPool, 0) && arg1 == certs[$k + 1]
+//@   at before call time#0: assert clock0: arg0 == cfg
+//@   at before call Verify#0: assert codename0: (len(ovr) != 0 && ovr != "*" ==> arg1.DNSName == ovr) && (ovr == "*" ==> arg1.DNSName == "")
+//@   at before call Verify#0: assert DEFECT_C14_ech_public_name: len(ovr) == 0 ==> arg1.DNSName == pubname
+//@   note DEFECT_C14_ech_public_name was violated (the inner name Config.ServerName was verified) and repaired by the fix: commit 8b5692c; InsecureServerNameToVerify still overrides the name as the property says
+//@   note cover:return0 and cover:return2 are unsat on purpose: `c.verifiedChains, err = fipsAllowedChains(chains); if err != nil {...}` cannot fail in uTLS (see fipsAllowedChains), both returns are dead code
+//@   note GENERATOR IMPRECISION: sendAlert (trusted, no frame) havocs the whole heap, including the backing array of the local, not yet escaped slice certs (it is stored into c.peerCertificates only afterwards); the next (listed) assumption restores the loop-0 fact certs[0] != nil for `certs[0].PublicKey` in the error message at handshake_client.go:1225
+//@   at after call sendAlert#7: assume localcerts: certs[0] != nil
+//@   loop 0 invariant -1 <= $rangeindex && $rangeindex < len(certificates)
+//@   loop 0 invariant len(certs) == len(certificates) && len(activeHandles) == len(certificates) && fresh(certs) && fresh(activeHandles)
+//@   loop 0 invariant forall j in 0..$k: certs[j] != nil
+//@   loop 1 invariant -1 <= $rangeindex && $rangeindex < len(certs) - 1
+//@   loop 2 invariant -1 <= $rangeindex && $rangeindex < len(certs) - 1
